@@ -173,6 +173,29 @@ def c06_case(ctx: Ctx, case: dict):
         ctx.count("validated")
         if not v.get("verdict"):
             ctx.broke("validator", "checkScheme(grl)", json.dumps({"text": text, "verdict": v}))
+    # one generator object asked for the scheme twice with different tolerances: the second answer is the answer a fresh
+    # generator gives for that tolerance (an option must be honoured on every request, not only on the first)
+    try:
+        import gotranx
+        import warnings
+        from gotranx.codegen.python import Format as _PF
+        from gotranx.schemes import get_scheme as _gs
+        with warnings.catch_warnings():
+            warnings.simplefilter("ignore")
+            fsch = _gs(alias)
+        other = 0.5 if delta != 0.5 else 1e-8
+        cg = gotranx.codegen.PythonCodeGenerator(b.ode, format=_PF.none)
+        cg.scheme(fsch, delta=other)
+        second = cg.scheme(fsch, delta=delta)
+        fresh = gotranx.codegen.PythonCodeGenerator(b.ode, format=_PF.none).scheme(fsch, delta=delta)
+        ctx.count("repeat_requests")
+        if second != fresh:
+            ctx.violate("C06/numpy/delta-not-honoured-on-repeat",
+                        f"{alias} requested with delta={other} and then with delta={delta} from one generator: the second text is not the text for delta={delta}",
+                        case=case)
+            return
+    except Exception as ex:
+        ctx.count(f"repeat_request_raises/{type(ex).__name__}")
     assigns, order, step = oracle.scheme_reference(rm, lin, "grl", delta)
     pts = case.get("points") or points_for(ctx, rm, ctx.n(6, 8), dts=(1e-3, 0.1, 0.0, -0.05, 1.0, 1e-6))
     # the emitted linearisation must be the partial derivative w.r.t. the own state (by value)
